@@ -121,6 +121,7 @@ pub mod env {
     impl ScryptoDecode for ScryptoValue {}
     impl ScryptoEncode for () {}
     impl<T: ScryptoEncode> ScryptoEncode for Option<T> {}
+    impl<T: ScryptoDecode> ScryptoDecode for Option<T> {}
     impl<T: ScryptoEncode> ScryptoEncode for FieldSubstate<T> {}
     impl<T: ScryptoDecode> ScryptoDecode for FieldSubstate<T> {}
     impl<T: ScryptoEncode> ScryptoEncode for KeyValueEntrySubstate<T> {}
@@ -202,6 +203,10 @@ pub mod env {
     /// "a payload of this field decodes as S" (schema typing of a field)
     pub open spec fn payload_is<S>(v: ScryptoValue) -> bool {
         forall|b: Seq<u8>| #[trigger] dec::<ScryptoValue>(b) == Some(v) ==> dec::<S>(b) is Some
+    }
+    /// "the value of this key-value entry (or its absence) decodes as Option<S>" (schema typing of a collection)
+    pub open spec fn kv_payload_is<S>(v: Option<ScryptoValue>) -> bool {
+        forall|b: Seq<u8>| #[trigger] dec::<Option<ScryptoValue>>(b) == Some(v) ==> dec::<Option<S>>(b) is Some
     }
     /// handle `h` was opened on `id` with lock data `data`
     pub open spec fn opened(s0: KState, s1: KState, h: SubstateHandle, id: SubstateId, data: SystemLockData, flags: LockFlags) -> bool {
@@ -350,6 +355,7 @@ pub mod env {
         pub fn from_content_source(c: RoyaltyAmount) -> (r: Self) ensures r.content == c { Self { content: c } }
     }
     impl ScryptoEncode for ComponentRoyaltyMethodAmountEntryPayload {}
+    impl ScryptoDecode for ComponentRoyaltyMethodAmountEntryPayload {}
     /// royalty/package.rs RoyaltyUtil::verify_royalty_amounts: reads costing parameters (max royalty, USD price) through the
     /// costing API only; not under contract. ASSUMED: no effect on substates / handles.
     pub struct RoyaltyUtil;
@@ -1028,6 +1034,31 @@ pub mod unit {
                 forall|h: SubstateHandle| is_new(old(self).kst(), final(self).kst(), h)
                     ==> open_guard(old(self).kst(), final(self).kst(), h, SubstateKind::KeyValue, flags, ok_of(ret)),
                 ret matches Ok(h) ==> is_new(old(self).kst(), final(self).kst(), h) && write_handles_unlocked(final(self).kst());
+        fn key_value_entry_get(&mut self, handle: KeyValueEntryHandle) -> (ret: Result<Vec<u8>, E>)
+            requires inv(old(self).kst())
+            ensures unchanged(old(self).kst(), final(self).kst()),
+                ret matches Ok(bytes) ==> old(self).kst().handles.contains_key(handle) && old(self).kst().handles[handle].data is KeyValueEntry
+                    && dec::<Option<ScryptoValue>>(bytes@) == Some(kv_of(old(self).kst().heap[old(self).kst().handles[handle].id])->Some_0.val());
+        /*@fn radix-engine-interface/src/api/key_value_entry_api.rs :: trait SystemKeyValueEntryApi<E> :: fn key_value_entry_get_typed
+        @sig
+            requires inv(old(self).kst()),
+                     // the `unwrap`: the entry's value has type S
+                     old(self).kst().handles.contains_key(handle) && old(self).kst().handles[handle].data is KeyValueEntry
+                        ==> kv_payload_is::<S>(kv_of(old(self).kst().heap[old(self).kst().handles[handle].id])->Some_0.val()),
+            ensures unchanged(old(self).kst(), final(self).kst()),
+        @*/
+        fn key_value_entry_remove(&mut self, handle: KeyValueEntryHandle) -> (ret: Result<Vec<u8>, E>)
+            requires inv(old(self).kst()), write_handles_unlocked(old(self).kst())
+            ensures
+                heap_monotone(old(self).kst().heap, final(self).kst().heap),
+                inv(final(self).kst()), write_handles_unlocked(final(self).kst()),
+                old(self).kst().handles.contains_key(handle) && !kv_write_data(old(self).kst().handles[handle].data) ==> ret is Err,
+                ret is Err ==> unchanged(old(self).kst(), final(self).kst()),
+                ret matches Ok(bytes) ==> only_rewritten(old(self).kst(), final(self).kst(), handle)
+                    && kv_write_data(old(self).kst().handles[handle].data)
+                    && kv_of(final(self).kst().heap[old(self).kst().handles[handle].id])
+                        == Some(kv_entry(None, kv_of(old(self).kst().heap[old(self).kst().handles[handle].id])->Some_0.st()))
+                    && dec::<Option<ScryptoValue>>(bytes@) == Some(kv_of(old(self).kst().heap[old(self).kst().handles[handle].id])->Some_0.val());
         fn key_value_entry_set(&mut self, handle: KeyValueEntryHandle, buffer: Vec<u8>) -> (ret: Result<(), E>)
             requires inv(old(self).kst()), write_handles_unlocked(old(self).kst())
             ensures
@@ -1085,6 +1116,10 @@ pub mod unit {
         { SystemService::<'a, Y>::field_close(self, handle) }
         fn actor_open_key_value_entry(&mut self, object_handle: ActorStateHandle, collection_index: CollectionIndex, key: &Vec<u8>, flags: LockFlags) -> (ret: Result<KeyValueEntryHandle, RuntimeError>)
         { SystemService::<'a, Y>::actor_open_key_value_entry(self, object_handle, collection_index, key, flags) }
+        fn key_value_entry_get(&mut self, handle: KeyValueEntryHandle) -> (ret: Result<Vec<u8>, RuntimeError>)
+        { SystemService::<'a, Y>::key_value_entry_get(self, handle) }
+        fn key_value_entry_remove(&mut self, handle: KeyValueEntryHandle) -> (ret: Result<Vec<u8>, RuntimeError>)
+        { SystemService::<'a, Y>::key_value_entry_remove(self, handle) }
         fn key_value_entry_set(&mut self, handle: KeyValueEntryHandle, buffer: Vec<u8>) -> (ret: Result<(), RuntimeError>)
         { SystemService::<'a, Y>::key_value_entry_set(self, handle, buffer) }
         fn key_value_entry_lock(&mut self, handle: KeyValueEntryHandle) -> (ret: Result<(), RuntimeError>)
